@@ -32,7 +32,7 @@ def run(ctx):
             combos = [('vyu', 'obj', {'cap': '2'}), ('vyu', 'uptr', {'cap': '4'}), ('nikb', 'obj', {'cap': '2', 'retries': '0'}), ('nikb', 'uptr', {'cap': '3', 'retries': '2'})]
         else:
             combos = [('ms', 'obj', {}), ('ms', 'uptr', {}), ('ram', 'uptr', {'epn': '1', 'retries': '0'}), ('ram', 'uptr', {'epn': '2', 'retries': '1'}), ('ram', 'small', {'epn': '2', 'retries': '0'}),
-                      ('nik', 'obj', {'epn': '1', 'retries': '0'}), ('nik', 'uptr', {'epn': '2', 'retries': '1'}), ('kfb', 'uptr', {'k': '2', 'segs': '2'})]
+                      ('nik', 'obj', {'epn': '1', 'retries': '0'}), ('nik', 'uptr', {'epn': '2', 'retries': '1'}), ('kfb', 'uptr', {'k': '2', 'segs': '2', 'relaxfull': '1'})]   # when 'full' may be answered is C06's business (known finding there); here: ownership
             if name != 'uq_lfrc':
                 combos.append(('kf', 'uptr', {'k': '2'}))
             if not thorough:
